@@ -1011,7 +1011,7 @@ def run_cont(ctx, c):
         W, U = "bpkiShareWrap", "bpkiShareUnwrap"
     pwd = expand(seed + "p", c["plen"])
     salt = expand(seed + "s", 8)
-    it = 10000
+    it = [10000, 10000, 10001, 32767, 32768, 65536][(c["num"] + c["len"]) % 6]      # the iteration count is a DER INTEGER of 2 or 3 octets inside the container
     S, PW, SALT = x.buf(secret), x.buf(pwd), x.buf(salt)
     if x.call(W, None, x.zero(8), S, kl, PW, len(pwd), SALT, 9999) == 0:
         raise Fail("%s accepts iter = 9999 (documented minimum 10000)" % W)
